@@ -289,6 +289,8 @@ def check_c05(run, g, opname, mp, r, rep):
         cls = finding_class(g, mp, opname, path)
         if cls is None and a["kind"] == "typename" and len(keys_only(path)) == 1:
             cls = "F29-root-typename-is-str"
+        if cls is None and a["kind"] == "typename_self":
+            cls = "F8-abstract-own-name-in-literal"
         what = (f"contradicting payload accepted: {a['kind']} at {path} (GraphQL type {a['type']} on {a['parent']})")
         rep2 = dict(rep, corrupted_response=a["value"], corruption={"kind": a["kind"], "path": path, "type": a["type"]})
         (run.finding(cls, what, rep2) if cls else run.violation(what, rep2))
